@@ -145,6 +145,180 @@ let readable line =
   String.concat " " (List.map (fun t -> if String.length t > 0 && t.[0] = 'x' && String.length t mod 2 = 1
                                  then (try "\"" ^ unhex t ^ "\"" with _ -> t) else t) (toks line))
 
+
+(* ------------------------------------------------------------------ String() model *)
+let ent = function
+  | a :: b :: c :: d :: e :: rest -> ({ e_id = cs a; e_kind = cs b; e_name = cs c; e_desc = cs d; e_time = cs e }, rest)
+  | _ -> failwith "entity"
+let opt_send t = if t = "-" then None else Some (cs t)
+
+let parse_stype st = match toks (pop st) with
+  | "stype" :: r ->
+    let e, r = ent r in
+    (match r with
+     | [k; sz; sg; mn; mx; sc; off; refs] ->
+       { ty_ent = e; ty_kind = cs k; ty_size = cz sz; ty_signed = (sg = "1"); ty_min = cs mn; ty_max = cs mx;
+         ty_scale = cs sc; ty_offset = cs off; ty_refs = cz refs }
+     | _ -> failwith "stype fields")
+  | _ -> failwith "stype expected"
+let parse_sunit st = match toks (pop st) with
+  | "sunit" :: r ->
+    let e, r = ent r in
+    (match r with
+     | [k; sym; refs] -> { un_ent = e; un_kind = cs k; un_symbol = cs sym; un_refs = cz refs }
+     | _ -> failwith "sunit fields")
+  | _ -> failwith "sunit expected"
+let parse_senum st = match toks (pop st) with
+  | "senum" :: r ->
+    let e, r = ent r in
+    (match r with
+     | mx :: refs :: nv :: rest ->
+       let rec vals k r = if k = 0 then [] else
+           let ve, r = ent r in
+           (match r with i :: r' -> { va_ent = ve; va_index = cz i } :: vals (k - 1) r' | [] -> failwith "value index") in
+       { en_ent = e; en_maxindex = cz mx; en_values = vals (int_of_string nv) rest; en_refs = cz refs }
+     | _ -> failwith "senum fields")
+  | _ -> failwith "senum expected"
+
+let base_of r =
+  let e, r = ent r in
+  match r with
+  | k :: snd :: start :: size :: rest ->
+    ({ sb_ent = e; sb_kind = cs k; sb_sendtype = opt_send snd; sb_start = cz start; sb_size = cz size }, rest)
+  | _ -> failwith "signal base"
+
+let rec parse_ssigs st : ssig list =
+  match peek st with
+  | Some l ->
+    (match toks l with
+     | "sstd" :: r ->
+       ignore (pop st);
+       let b, r = base_of r in
+       let ty = parse_stype st in
+       let un = if r = ["1"] then Some (parse_sunit st) else None in
+       let s = StrStd (b, ty, un) in s :: parse_ssigs st
+     | "senm" :: r ->
+       ignore (pop st);
+       let b, _ = base_of r in
+       let en = parse_senum st in
+       let s = StrEnum (b, en) in s :: parse_ssigs st
+     | "smux" :: r ->
+       ignore (pop st);
+       let b, r = base_of r in
+       let rec groups () = match toks (pop st) with
+         | ["grp"] ->
+           let g = parse_ssigs st in
+           (match toks (pop st) with ["endgrp"] -> () | _ -> failwith "endgrp");
+           g :: groups ()
+         | ["endmux"] -> []
+         | _ -> failwith "grp/endmux" in
+       let gl = groups () in
+       let s = StrMux (b, (r = ["1"]), gl) in s :: parse_ssigs st
+     | _ -> [])
+  | None -> []
+
+let parse_smsg st : string * smsg = match toks (pop st) with
+  | "smsg" :: tag :: r ->
+    let e, r = ent r in
+    (match r with
+     | id :: prio :: size :: cyc :: dl :: sdl :: snd :: nrecv :: rest ->
+       let rec recvs k r = if k = 0 then [] else
+           match r with
+           | n :: nid :: eid :: r' -> { rc_name = cs n; rc_nodeid = cz nid; rc_eid = cs eid } :: recvs (k - 1) r'
+           | _ -> failwith "srecv" in
+       let rc = recvs (int_of_string nrecv) rest in
+       let sigs = parse_ssigs st in
+       (match toks (pop st) with ["endmsg"] -> () | _ -> failwith "endmsg (str)");
+       (tag, { mg_ent = e; mg_id = cz id; mg_priority = cz prio; mg_size = cz size; mg_cycle = cz cyc; mg_delay = cz dl;
+               mg_startdelay = cz sdl; mg_sendtype = opt_send snd; mg_recv = rc; mg_sigs = sigs })
+     | _ -> failwith "smsg fields")
+  | _ -> failwith "smsg expected"
+
+let parse_snet st : snet =
+  let e = match toks (pop st) with "snet" :: r -> fst (ent r) | _ -> failwith "snet expected" in
+  let rec buses () = match toks (pop st) with
+    | "sbus" :: r ->
+      let be, r = ent r in
+      (match r with
+       | baud :: r ->
+         let ce, r = ent r in
+         (match r with
+          | refs :: nops :: rest ->
+            let rec ops k r = if k = 0 then [] else
+                match r with
+                | kd :: f :: l :: r' -> { op_kind = cs kd; op_from = cz f; op_len = cz l } :: ops (k - 1) r'
+                | _ -> failwith "sop" in
+            let bd = { bd_ent = ce; bd_ops = ops (int_of_string nops) rest; bd_refs = cz refs } in
+            let rec nifs () = match toks (pop st) with
+              | "snif" :: num :: r ->
+                let ne, r = ent r in
+                let nid = match r with [x] -> cz x | _ -> failwith "snif node id" in
+                let rec msgs sent recv = match peek st with
+                  | Some l when (match toks l with "smsg" :: _ -> true | _ -> false) ->
+                    let tag, m = parse_smsg st in
+                    if tag = "S" then msgs (m :: sent) recv else msgs sent (m :: recv)
+                  | _ -> (List.rev sent, List.rev recv) in
+                let sent, recv = msgs [] [] in
+                (match toks (pop st) with ["endnif"] -> () | _ -> failwith "endnif (str)");
+                { ni_number = cz num; ni_node = { nd_ent = ne; nd_nodeid = nid }; ni_sent = sent; ni_received = recv } :: nifs ()
+              | ["endbus"] -> []
+              | _ -> failwith "snif/endbus" in
+            let nl = nifs () in
+            { bs_ent = be; bs_baud = cz baud; bs_builder = bd; bs_nifs = nl } :: buses ()
+          | _ -> failwith "sbus builder")
+       | _ -> failwith "sbus baud")
+    | ["endsnet"] -> []
+    | _ -> failwith "sbus/endsnet" in
+  let bl = buses () in
+  { nw_ent = e; nw_buses = bl }
+
+(* the renderings of every entity, in the preorder in which the harness observed them *)
+let model_strings (n : snet) : (string * string) list =
+  let acc = ref [] in
+  let add k s = acc := (k, implode s) :: !acc in
+  let rec sigs l = List.iter (fun s ->
+      add "sig" (sig_string s);
+      match s with
+      | StrStd (_, ty, un) -> add "type" (type_string ty); (match un with Some u -> add "unit" (unit_string u) | None -> ())
+      | StrEnum (_, en) -> add "enum" (enum_string en); List.iter (fun v -> add "value" (value_string v)) en.en_values
+      | StrMux (_, _, gs) -> List.iter sigs gs) l in
+  add "net" (net_string n);
+  List.iter (fun b ->
+      add "bus" (bus_string b); add "builder" (builder_string b.bs_builder);
+      List.iter (fun x ->
+          add "nif" (nif_string x); add "node" (node_string x.ni_node);
+          List.iter (fun m -> add "msg" (msg_string m); sigs m.mg_sigs) x.ni_sent) b.bs_nifs) n.nw_buses;
+  List.rev !acc
+
+let str_compared = ref 0
+let compare_strings idx st report =
+  match peek st with
+  | Some l when (match toks l with "snet" :: _ -> true | _ -> false) ->
+    let n = parse_snet st in
+    let rec obs () = match pop st with
+      | "endstr" -> []
+      | l -> (match toks l with
+          | ["ostr"; k; t] -> (k, if t = "PANIC" then "<panic>" else unhex t) :: obs ()
+          | _ -> failwith ("ostr expected: " ^ l)) in
+    let observed = obs () in
+    let model = model_strings n in
+    if List.length observed <> List.length model then
+      report (Printf.sprintf "String(): %d renderings observed, %d in the model" (List.length observed) (List.length model))
+    else
+      List.iter2 (fun (k1, o) (k2, m) ->
+          incr str_compared;
+          if k1 <> k2 then report (Printf.sprintf "String(): kind %s vs %s" k1 k2)
+          else if o <> m then begin
+            let ol = String.split_on_char '\n' o and ml = String.split_on_char '\n' m in
+            let rec first i a b = match a, b with
+              | x :: a', y :: b' -> if x = y then first (i + 1) a' b' else Printf.sprintf "line %d impl %S model %S" i x y
+              | x :: _, [] -> Printf.sprintf "line %d impl %S model <none>" i x
+              | [], y :: _ -> Printf.sprintf "line %d impl <none> model %S" i y
+              | [], [] -> "" in
+            report (Printf.sprintf "%s.String() differs: %s" k1 (first 0 ol ml))
+          end) observed model
+  | _ -> ()
+
 let () =
   let ic = open_in Sys.argv.(1) in
   let verbose = Array.length Sys.argv > 2 in
@@ -177,7 +351,12 @@ let () =
          end in
        if model_err <> obs_err then report (Printf.sprintf "error result differs (impl %b, model %b)" obs_err model_err)
        else if observed <> model_lines then report "blocks differ";
+       let str_bad = ref false in
+       compare_strings idx st (fun what -> if not !str_bad then begin
+           str_bad := true; incr bad;
+           if !bad <= 10 then Printf.printf "MISMATCH case %s [string]: %s\n" idx what end);
        if verbose then List.iter (fun l -> print_endline ("  model: " ^ readable l)) model_lines
      done
    with Failure m -> Printf.printf "DRIVER-ERROR %s\n" m; incr bad);
+  Printf.printf "STRINGS %d\n" !str_compared;
   Printf.printf "CASES %d MISMATCHES %d\n" !cases !bad
